@@ -49,9 +49,10 @@ Proof. exact step_entry. Qed.
 Print Assumptions entry_changes_only_by_its_rotation.
 
 (* CRASH SAFE (full).  For every state, every operation and every point at which it may be interrupted (the
-   process dies at, or the store refuses, any one of its store mutations), every entry that was in the store is still there, unchanged, under its
+   process dies at, or the store refuses, any one of its store mutations; or any one of its store calls, reads
+   included, fails), every entry that was in the store is still there, unchanged, under its
    id, for whatever key manager is opened next. *)
-Theorem crash_safe : forall st o n id ks,
+Theorem crash_safe : forall st o (n : intr) id ks,
   snd (step Fixed st (o, Some n)) = OCrashed ->
   lookup (st_store st) id = Some ks ->
   lookup (st_store (fst (step Fixed st (o, Some n)))) id = Some ks.
@@ -74,17 +75,18 @@ Print Assumptions key_material_never_destroyed.
 (* the code as found: Rotate interrupted between its Delete and its Put loses the key (observation #14) *)
 Theorem crash_safe_asis_refuted :
   let st := {| st_store := asis_witness_store; st_pos := 1 |} in
-  snd (step AsIs st (KRotate (KThumb 0), Some 1%nat)) = OCrashed /\
-  has_keyb (st_store (fst (step AsIs st (KRotate (KThumb 0), Some 1%nat)))) 0 = false /\
-  entries_kept (st_store st) (st_store (fst (step Fixed st (KRotate (KThumb 0), Some 1%nat)))) = true.
+  snd (step AsIs st (KRotate (KThumb 0), Some (IMut 1%nat))) = OCrashed /\
+  has_keyb (st_store (fst (step AsIs st (KRotate (KThumb 0), Some (IMut 1%nat))))) 0 = false /\
+  entries_kept (st_store st) (st_store (fst (step Fixed st (KRotate (KThumb 0), Some (IMut 1%nat))))) = true.
 Proof. vm_compute. repeat split. Qed.
 Print Assumptions crash_safe_asis_refuted.
 
-(* IMPORT NEVER OVERWRITES: an import under a caller-chosen id that is in use fails and changes nothing;
+(* IMPORT NEVER OVERWRITES: an import under a caller-chosen id that is in use fails — also when its id check
+   cannot be completed because the store's read fails — and changes nothing;
    more generally no store Put of any operation ever hits an id that is present *)
 Theorem import_no_overwrite : forall v st kt u k c ks,
   lookup (st_store st) (KUser u) = Some ks ->
-  snd (step v st (KImport kt (Some u) k, c)) = OErr /\
+  (snd (step v st (KImport kt (Some u) k, c)) = OErr \/ snd (step v st (KImport kt (Some u) k, c)) = OCrashed) /\
   st_store (fst (step v st (KImport kt (Some u) k, c))) = st_store st.
 Proof. exact import_existing_refused. Qed.
 Print Assumptions import_no_overwrite.
@@ -170,8 +172,8 @@ Print Assumptions didkey_form_asis_refuted.
 (* non-vacuity: a history with creations, imports, rotations, a crash inside a rotation, reopening *)
 Example durable_nonvacuous :
   let ops := [(KCreate K_ED25519, None); (KImport K_ECDSAP256DER (Some 1) 1000, None);
-              (KRotate (KThumb 0), Some 1%nat); (KReopen, None); (KRotate (KThumb 0), None);
-              (KImport K_ECDSAP256DER (Some 1) 1001, None); (KCreate K_AES256GCM, Some 0%nat);
+              (KRotate (KThumb 0), Some (IMut 1%nat)); (KReopen, None); (KRotate (KThumb 0), None);
+              (KImport K_ECDSAP256DER (Some 1) 1001, None); (KCreate K_AES256GCM, Some (IMut 0%nat));
               (KGet (KThumb 4), None)] in
   let '(st, outs) := run Fixed init ops in
   nth 2%nat outs OErr = OCrashed /\ nth 4%nat outs OErr = OId (KThumb 4) 4 /\
@@ -181,3 +183,11 @@ Example durable_nonvacuous :
   lookup (st_store st) (KThumb 0) = None /\
   option_map ks_keys (lookup (st_store st) (KUser 1)) = Some [1000].
 Proof. vm_compute. repeat split. Qed.
+
+(* non-vacuity of import_no_overwrite with a failing read: the id check of an import whose id is in use fails *)
+Example import_no_overwrite_failing_read :
+  let st := fst (step Fixed init (KImport K_ED25519 (Some 1) 1000, None)) in
+  snd (step Fixed st (KImport K_ED25519 (Some 1) 1001, Some (ICall 0%nat))) = OCrashed /\
+  option_map ks_keys (lookup (st_store (fst (step Fixed st (KImport K_ED25519 (Some 1) 1001, Some (ICall 0%nat))))) (KUser 1))
+    = Some [1000].
+Proof. vm_compute. split; reflexivity. Qed.
